@@ -31,7 +31,7 @@ EmptyItems == [k \in Keys |-> Absent]
 Mut == << [k |-> "a", l |-> 1, del |-> FALSE], [k |-> "b", l |-> 0, del |-> FALSE], [k |-> "a", l |-> 0, del |-> FALSE],
           [k |-> "b", l |-> 1, del |-> FALSE], [k |-> "a", l |-> 0, del |-> TRUE],  [k |-> "b", l |-> 1, del |-> FALSE] >>
 \* the n-th "new" filter (cyclic); the immediate variant starts with InitF
-Flt == << "lx0", "null", "lx1", "all", "fnx0", "nlx1" >>
+Flt == << "null", "lx0", "lx1", "all", "fnx0", "nlx1" >>
 InitF == IF Deferred THEN "all" ELSE "lx1"
 Comparable(f) == f # "fnx0"
 SameFilter(f, g) == f = g /\ Comparable(f)
